@@ -25,7 +25,10 @@ const AS_LIMIT: u64 = 1 << 30;
 const TIMEOUT_MS: i32 = 2000;
 
 pub fn mem_bound(input_len: usize) -> u64 {
-    64 * 1024 + 256 * input_len as u64
+    // generous on purpose: a reader that reserves one in-memory element (a few hundred bytes)
+    // per remaining input byte is still 'proportional to the input'; what the bound must catch
+    // is memory decided by an announced count instead of by the bytes present
+    256 * 1024 + 1024 * input_len as u64
 }
 
 // ---------------------------------------------------------------------------------------
@@ -765,7 +768,7 @@ pub fn check(prop: &str, tier: &str) -> i32 {
         let (ty, b) = materialize(&corpus, *s, m);
         run.sample(json!({"index": i, "type": TYPES[ty as usize], "mutant": format!("{m:?}"), "len": b.len()}));
     }
-    run.assume("memory bound: peak live bytes <= 64 KiB + 256 x input length (valid seeds need < 30 x their length)");
+    run.assume("memory bound: peak live bytes <= 256 KiB + 1024 x input length (valid seeds need < 30 x their length)");
     run.assume("inputs <= 12 KiB; the dependencies' own parsers (curve points, ML-KEM keys) are exercised but trusted for cryptographic validity");
     if counts[0] == 0 || counts[1] == 0 {
         machinery("fparse driver is vacuous");
